@@ -413,8 +413,10 @@ pub fn run_c11(chk: &Check, tier: Tier) {
     for &c in &channels {
         let mut sys = c11_system("C11", c, Report { oracle: true, ..Default::default() }, vals, true).with_pumps(&CONTRIB, 3);
         sys.storms = vec![(256, false), (65536, false), (65536, true)];
-        if tier.thorough() && c == channels[0] {
-            // the 8 + 64 cycles of length <= 2 come first
+        if c == channels[0] {
+            // the 8 + 64 cycles of length <= 2 come first: 70000 rounds each (a 16-bit counter driven
+            // by feeds wraps on the way, and every feed is judged), from states within two steps of
+            // the initial state
             sys.long_pumps = 72;
         }
         let out = xs::explore(&sys, &Limits::default());
